@@ -37,12 +37,14 @@ type Contract struct {
 	File     string
 	Line     int
 	Results  []string
+	Params   []string // parameter names of the header (behaviour specs of function values bind by position)
 	Props    []string
 	Requires []Clause
 	Assumes  []Clause
 	Ensures  []Clause
 	EnsPanic []Clause
 	Modifies []string
+	Keeps    []string
 	Invs     map[int][]Clause
 	LoopMod  map[int][]string
 	Lemmas   []Lemma
@@ -82,6 +84,7 @@ type ContractSet struct {
 	Pure   map[string]PureFn
 	Files  []string
 	Consts map[string]string
+	FieldSpecs map[string]string // "Type.field" -> key of the behaviour spec contract
 }
 
 type PureFn struct {
@@ -108,6 +111,8 @@ func splitLabel(s string) Clause {
 	return Clause{Expr: s}
 }
 
+var lastHeaderParams []string
+
 // parseHeader parses `Name(params) (results)` or `Name r1 r2`.
 func parseHeader(rest string) (string, []string) {
 	rest = strings.TrimSpace(rest)
@@ -130,6 +135,13 @@ func parseHeader(rest string) (string, []string) {
 			if depth == 0 {
 				break
 			}
+		}
+	}
+	lastHeaderParams = nil
+	for _, part := range strings.Split(tail[1:j], ",") { // parameter names: `a, b int` -> a, b
+		f := strings.Fields(part)
+		if len(f) > 0 {
+			lastHeaderParams = append(lastHeaderParams, f[0])
 		}
 	}
 	res := strings.TrimSpace(tail[j+1:])
@@ -188,6 +200,13 @@ func (cs *ContractSet) parseFile(path, pkg string, prefix string, trusted bool) 
 		case "package":
 			pkg = rest
 			cur = nil
+		case "field":
+			// field Type.f : behaviourSpec  - calls through this function-typed field obey that contract
+			fs := strings.Fields(rest)
+			if len(fs) != 3 || fs[1] != ":" {
+				return bad("field Type.f : spec")
+			}
+			cs.FieldSpecs[fs[0]] = fs[2]
 		case "ghost":
 			fs := strings.Fields(rest)
 			if len(fs) != 2 {
@@ -233,7 +252,8 @@ func (cs *ContractSet) parseFile(path, pkg string, prefix string, trusted bool) 
 			cs.Pure[pf.Name] = pf
 		case "func":
 			name, results := parseHeader(rest)
-			cur = &Contract{Pkg: pkg, Fn: name, File: path, Line: ln, Results: results, Invs: map[int][]Clause{}, LoopMod: map[int][]string{}, Opts: map[string]string{}, Trusted: trusted}
+			cur = &Contract{Pkg: pkg, Fn: name, File: path, Line: ln, Results: results, Params: lastHeaderParams, Invs: map[int][]Clause{}, LoopMod: map[int][]string{}, Opts: map[string]string{}, Trusted: trusted}
+			lastHeaderParams = nil
 			if strings.Contains(name, "/") || (trusted && strings.Contains(name, ".") && pkg == "") {
 				// fully qualified key given directly
 				cur.Pkg, cur.Fn = "", name
@@ -261,6 +281,9 @@ func (cs *ContractSet) parseFile(path, pkg string, prefix string, trusted bool) 
 				cur.EnsPanic = append(cur.EnsPanic, splitLabel(rest))
 			case "modifies":
 				cur.Modifies = append(cur.Modifies, strings.Fields(rest)...)
+			case "keeps":
+				// ghost variables that callees WITHOUT a contract are assumed not to change (listed assumption)
+				cur.Keeps = append(cur.Keeps, strings.Fields(rest)...)
 			case "nopanic":
 				cur.NoPanic = true
 			case "trusted":
@@ -360,7 +383,7 @@ const modulePath = "github.com/pdfcpu/pdfcpu"
 
 // loadContracts walks repo for zz_verif_contracts.go files and trustedDir for *.spec files.
 func loadContracts(repo, trustedDir string) (*ContractSet, error) {
-	cs := &ContractSet{ByKey: map[string]*Contract{}, Ghosts: map[string]string{}, Pure: map[string]PureFn{}, Consts: map[string]string{}}
+	cs := &ContractSet{ByKey: map[string]*Contract{}, Ghosts: map[string]string{}, Pure: map[string]PureFn{}, Consts: map[string]string{}, FieldSpecs: map[string]string{}}
 	var files []string
 	err := filepath.Walk(repo, func(p string, info os.FileInfo, err error) error {
 		if err != nil {
